@@ -681,6 +681,7 @@ CHECK = Check(
         "packets vanish outside the returned frame; B: no sequence number in two frames, increasing frame order; C: every "
         "history frame exactly once, whole, in order. Non-trivial = history has reordering and (A/B) a discard, duplicate or "
         "16-bit wrap; (C) reordering. Distinct by SHA-1 of the concrete arrival list."
+        " Family receiver: a real video RTCRtpReceiver fed frames of 1-6 packets with loss, duplicates, held-back packets and jumps around the capacity; it must send a PLI exactly when add() returned the flag and queue exactly the frame add() returned."
     ),
     families=[
         Family("arbitrary", run_a, lambda tier: case_a(tier), quick=6000, thorough=300000),
